@@ -210,4 +210,87 @@ theorem xray3_constants : lookupConstant "XRayTransform3D._project.MAX_SLICE_LEN
     ∧ lookupConstant "XRayTransform3D._back_project.MAX_SLICE_LEN" = lookupConstant "XRayTransform3D._project.MAX_SLICE_LEN"
     ∧ lookupConstant "XRayTransform3D._calc_weights.w" = some "0.5" := by decide
 
+/-- error cases of the modelled constructors / helpers: (function, guard, exception class) of every `if guard: raise …` -/
+def modelRaises : List (String × String × String) := [
+  ("SingleAxisFiniteDifference.__init__", "not isinstance(axis, int)", "TypeError"),
+  ("SingleAxisFiniteDifference.__init__", "axis < 0 or axis >= len(input_shape)", "ValueError"),
+  ("SingleAxisFiniteDifference.__init__", "circular and (prepend is not None or append is not None)", "ValueError"),
+  ("SingleAxisFiniteDifference.__init__", "prepend not in [None, 0, 1]", "ValueError"),
+  ("SingleAxisFiniteDifference.__init__", "append not in [None, 0, 1]", "ValueError"),
+  ("DFT.__init__", "axes is not None and axes_shape is not None and (len(axes) != len(axes_shape))", "ValueError"),
+  ("CircularConvolve.__init__", "h_is_dft and h_center is not None", "ValueError"),
+  ("CircularConvolve.__init__", "except ValueError", "ValueError"),
+  ("CircularConvolve.from_operator", "is_nested(H.input_shape)", "ValueError"),
+  ("Convolve.__init__", "h.ndim != len(input_shape)", "ValueError"),
+  ("Convolve.__init__", "mode not in ['full', 'valid', 'same']", "ValueError"),
+  ("ConvolveByX.__init__", "x.ndim != len(input_shape)", "ValueError"),
+  ("ConvolveByX.__init__", "not snp.util.is_arraylike(x)", "TypeError"),
+  ("ConvolveByX.__init__", "mode not in ['full', 'valid', 'same']", "ValueError"),
+  ("_linear_pad", "callable(mode) or mode not in _LINEAR_PAD_MODES", "ValueError"),
+  ("_linear_pad", "key in kwargs and np.any(np.asarray(kwargs[key]) != 0)", "ValueError"),
+  ("ProjectedGradient.__init__", "snp.any(np.array(axes) >= len(input_shape))", "ValueError"),
+  ("PolarGradient.__init__", "len(input_shape) < 2", "ValueError"),
+  ("PolarGradient.__init__", "axes is not None and len(axes) != 2", "ValueError"),
+  ("PolarGradient.__init__", "not angular and (not radial)", "ValueError"),
+  ("CylindricalGradient.__init__", "len(input_shape) < 3", "ValueError"),
+  ("CylindricalGradient.__init__", "axes is not None and len(axes) != 3", "ValueError"),
+  ("CylindricalGradient.__init__", "not angular and (not radial) and (not axial)", "ValueError"),
+  ("SphericalGradient.__init__", "len(input_shape) < 3", "ValueError"),
+  ("SphericalGradient.__init__", "axes is not None and len(axes) != 3", "ValueError"),
+  ("SphericalGradient.__init__", "not azimuthal and (not polar) and (not radial)", "ValueError"),
+  ("normalize_axes", "shape is None", "ValueError"),
+  ("normalize_axes", "max(axes) >= len(shape) or min(axes) < 0", "ValueError"),
+  ("normalize_axes", "len(set(axes)) != len(axes)", "ValueError"),
+  ("slice_length", "idx < -length or idx > length - 1", "ValueError"),
+  ("slice_length", "not isinstance(idx, slice)", "ValueError"),
+  ("indexed_shape", "sum((1 for ax_idx in idx if ax_idx is not None and ax_idx is not Ellipsis)) > len(shape)", "ValueError"),
+  ("DiagonalReplicated.__init__", "map_type not in ['auto', 'pmap', 'vmap']", "ValueError"),
+  ("DiagonalReplicated.__init__", "input_axis < 0 or input_axis > len(op.input_shape)", "ValueError"),
+  ("DiagonalReplicated.__init__", "is_nested(op.input_shape)", "ValueError"),
+  ("DiagonalReplicated.__init__", "is_nested(op.output_shape)", "ValueError"),
+  ("DiagonalReplicated.__init__", "output_axis < 0 or output_axis > len(op.output_shape)", "ValueError"),
+  ("DiagonalReplicated.__init__", "map_type == 'pmap' and replicates > jax.device_count()", "ValueError"),
+  ("radial_transverse_frequency", "ndim not in (1, 2)", "ValueError"),
+  ("radial_transverse_frequency", "len(dx) != ndim", "ValueError"),
+  ("Propagator.__init__", "ndim not in (1, 2)", "ValueError"),
+  ("Propagator.__init__", "len(dx) != ndim", "ValueError"),
+  ("FraunhoferPropagator.__init__", "ndim not in (1, 2)", "ValueError"),
+  ("FraunhoferPropagator.__init__", "len(dx) != ndim", "ValueError")
+]
+
+/-- attributes of operator objects that the adapter (`harness/c04.py`) or the tie read: they must be stored by the constructor -/
+def usedAttrs : List (String × List String) := [
+  ("DFT", ["axes", "inv_axes_shape"]),
+  ("CircularConvolve", ["real", "h_dft", "ndims"]),
+  ("XRayTransform2D", ["x0", "dx", "nx", "angles", "y0", "ny"]),
+  ("XRayTransform3D", ["matrices", "det_shape"]),
+  ("Propagator", ["kp", "D", "F"]),
+  ("AbelTransform", ["proj_mat_quad"]),
+  ("ProjectedGradient", ["axes", "coord", "cdiff"])
+]
+
+/-- the guards that have a counterpart in the Lean model (`FDCfg.valid`, `normAxes`, `dftInit`, `circInit`, `convInit`) and
+    are exercised by the malformed stream of the adapter; all of them are error cases of the source -/
+def modelledGuards : List (String × String) := [
+  ("SingleAxisFiniteDifference.__init__", "axis < 0 or axis >= len(input_shape)"),
+  ("SingleAxisFiniteDifference.__init__", "circular and (prepend is not None or append is not None)"),
+  ("DFT.__init__", "axes is not None and axes_shape is not None and (len(axes) != len(axes_shape))"),
+  ("CircularConvolve.__init__", "h_is_dft and h_center is not None"),
+  ("CircularConvolve.__init__", "except ValueError"),
+  ("Convolve.__init__", "h.ndim != len(input_shape)"),
+  ("Convolve.__init__", "mode not in ['full', 'valid', 'same']"),
+  ("ConvolveByX.__init__", "x.ndim != len(input_shape)"),
+  ("ConvolveByX.__init__", "mode not in ['full', 'valid', 'same']"),
+  ("normalize_axes", "max(axes) >= len(shape) or min(axes) < 0"),
+  ("normalize_axes", "len(set(axes)) != len(axes)")
+]
+
+theorem modelledGuards_are_error_cases :
+    modelledGuards.all (fun g => modelRaises.any (fun r => r.1 = g.1 ∧ r.2.1 = g.2)) = true := by decide
+
+/-- every error case of the modelled functions raises `ValueError`, except the two type checks -/
+theorem raises_classes : modelRaises.all (fun r => r.2.2 = "ValueError" ∨ r.2.2 = "TypeError") = true
+    ∧ (modelRaises.filter (fun r => r.2.2 = "TypeError")).map (·.1)
+        = ["SingleAxisFiniteDifference.__init__", "ConvolveByX.__init__"] := by decide
+
 end Scico.LinOpsTables
